@@ -108,6 +108,79 @@ theorem mulConst_column_value (N : Nat) (x : Col) (b : List Int) (hi : Nat) (β 
     have hj' : j < b.length := mem_range.mp hj
     rw [if_neg (by omega)]
 
+/-! ### polynomial × polynomial convolution (`cnv_apply_dft`, `Hal.cnvApplyCol`) -/
+
+theorem limbOr0_length (N : Nat) (x : Col) (m : Nat) (hx : ∀ l ∈ x, l.length = N) : (limbOr0 N x m).length = N := by
+  unfold limbOr0
+  by_cases h : m < x.length
+  · rw [List.getD_eq_getElem?_getD, List.getElem?_eq_getElem h]; exact hx _ (List.getElem_mem _)
+  · rw [List.getD_eq_getElem?_getD, List.getElem?_eq_none (by omega)]; simp [zeroP]
+
+theorem ι_cnvCoeff (N : Nat) (hN : 0 < N) (x y : Col) (k : Nat) (hx : ∀ l ∈ x, l.length = N) (hy : ∀ l ∈ y, l.length = N)
+    (hsa : 1 ≤ x.length) :
+    ι N (Hal.cnvCoeff N x y k)
+      = CnvValue.conv (fun m => ι N (limbOr0 N x m)) (fun j => ι N (limbOr0 N y j)) x.length y.length k := by
+  unfold Hal.cnvCoeff CnvValue.conv
+  by_cases hk : k ≥ x.length + y.length
+  · rw [if_pos hk, ι_zero]
+    symm
+    apply Finset.sum_eq_zero
+    intro j hj
+    have hj' : j < y.length := mem_range.mp hj
+    rw [if_neg (by omega)]
+  · rw [if_neg hk]
+    simp only []
+    rw [ι_sumPolys_range N _ _ (fun t _ => by rw [Hal.negMul_length]; exact limbOr0_length N y _ hy)]
+    rw [← Finset.sum_filter]
+    symm
+    apply Finset.sum_bij' (fun j _ => j - (k - (x.length - 1))) (fun t _ => k - (x.length - 1) + t)
+    · intro j hj
+      simp only [mem_filter, mem_range] at hj
+      simp only [mem_range]; omega
+    · intro t ht
+      simp only [mem_range] at ht
+      simp only [mem_filter, mem_range]; omega
+    · intro j hj
+      simp only [mem_filter, mem_range] at hj
+      omega
+    · intro t _; omega
+    · intro j hj
+      simp only [mem_filter, mem_range] at hj
+      have e : k - (x.length - 1) + (j - (k - (x.length - 1))) = j := by omega
+      rw [e, ι_negMul N _ _ (limbOr0_length N y _ hy) hN]
+
+/-- value of one accumulator column of `glwe_mul_plain` / of one diagonal column of the tensor product -/
+theorem cnvApply_column_value (N : Nat) (hN : 0 < N) (x y : Col) (hi : Nat) (β : R N)
+    (hx : ∀ l ∈ x, l.length = N) (hy : ∀ l ∈ y, l.length = N) (hsa : 1 ≤ x.length) (hsb : 1 ≤ y.length)
+    (hhi : hi ≤ x.length + y.length - 1) :
+    ∑ k ∈ range (x.length + y.length - hi),
+        ι N (limbOr0 N (Hal.cnvApplyCol N (x.length + y.length - hi) hi x y) k) * β ^ (x.length + y.length - hi - 1 - k)
+      + β ^ (x.length + y.length - hi) *
+          CnvValue.val β hi (CnvValue.conv (fun m => ι N (limbOr0 N x m)) (fun j => ι N (limbOr0 N y j)) x.length y.length)
+      = β * CnvValue.val β x.length (fun m => ι N (limbOr0 N x m)) * CnvValue.val β y.length (fun j => ι N (limbOr0 N y j)) := by
+  rw [← CnvValue.conv_value]
+  have hsum : x.length + y.length = hi + (x.length + y.length - hi) := by omega
+  conv_rhs => rw [hsum]
+  rw [val_split, add_comm]
+  congr 1
+  apply Finset.sum_congr rfl
+  intro k hk
+  have hk' : k < x.length + y.length - hi := mem_range.mp hk
+  congr 1
+  unfold Hal.cnvApplyCol limbOr0
+  rw [mapRange_getD _ _ _ _ hk']
+  have hoff : min hi (x.length + y.length - 1) = hi := by omega
+  by_cases hm : k < min (x.length + y.length - hi) (x.length + y.length - 1)
+  · rw [if_pos hm, hoff]
+    exact ι_cnvCoeff N hN x y (k + hi) hx hy hsa
+  · rw [if_neg hm, ι_zero]
+    symm
+    unfold CnvValue.conv
+    apply Finset.sum_eq_zero
+    intro j hj
+    have hj' : j < y.length := mem_range.mp hj
+    rw [if_neg (by omega)]
+
 /-- `ι` of the phase of one limb across columns: `ι body + Σ_i ι s_i · ι mask_i` -/
 theorem ι_phaseRow_fold (N : Nat) (hN : 0 < N) : ∀ (sk ms : List Poly) (b : Poly), b.length = N → (∀ m ∈ ms, m.length = N) →
     ι N ((List.zipWith Hal.negMul sk ms).foldl polyAdd b)
@@ -163,6 +236,60 @@ theorem cnvByConstCol_limb_length (N S hi : Nat) (x : Col) (b : List Int) (k : N
   · rw [mapRange_getD_ge _ _ _ _ (by omega)]
     simp [zeroP]
 
+/-- generic step: column-wise value identities `V(F x) + β^S·top x = β·cv x·v` lift to the phase -/
+theorem phase_value_of_columns (N : Nat) (hN : 0 < N) (sk : List Poly) (a0 : Col) (as : List Col) (S : Nat) (β : R N)
+    (F : Col → Col) (top cv : Col → R N) (v : R N)
+    (hlen : ∀ x k, (x = a0 ∨ x ∈ as) → (limbOr0 N (F x) k).length = N)
+    (hcol : ∀ x, (x = a0 ∨ x ∈ as) →
+      ∑ k ∈ range S, ι N (limbOr0 N (F x) k) * β ^ (S - 1 - k) + β ^ S * top x = β * cv x * v) :
+    ∑ k ∈ range S, ι N (phaseRow sk (((a0 :: as).map F).map (fun col => limbOr0 N col k))) * β ^ (S - 1 - k)
+      + β ^ S * (top a0 + ∑ i ∈ range (min sk.length as.length), ι N (sk.getD i []) * top (as.getD i []))
+      = β * (cv a0 + ∑ i ∈ range (min sk.length as.length), ι N (sk.getD i []) * cv (as.getD i [])) * v := by
+  have hphase : ∀ k, ι N (phaseRow sk (((a0 :: as).map F).map (fun col => limbOr0 N col k)))
+      = ι N (limbOr0 N (F a0) k)
+        + ∑ i ∈ range (min sk.length as.length), ι N (sk.getD i []) * ι N (limbOr0 N (F (as.getD i [])) k) := by
+    intro k
+    simp only [List.map_cons]
+    rw [ι_phaseRow N hN sk _ _ (hlen a0 k (Or.inl rfl)) (by
+      intro m hm
+      simp only [List.mem_map] at hm
+      obtain ⟨c, ⟨x, hxm, rfl⟩, rfl⟩ := hm
+      exact hlen x k (Or.inr hxm))]
+    congr 1
+    simp only [List.length_map]
+    apply Finset.sum_congr rfl
+    intro i hi'
+    have hil : i < as.length := by have := mem_range.mp hi'; omega
+    congr 2
+    simp [List.getD_eq_getElem?_getD, hil]
+  have e1 : ∑ k ∈ range S, ι N (phaseRow sk (((a0 :: as).map F).map (fun col => limbOr0 N col k))) * β ^ (S - 1 - k)
+      = ∑ k ∈ range S, ι N (limbOr0 N (F a0) k) * β ^ (S - 1 - k)
+        + ∑ i ∈ range (min sk.length as.length), ι N (sk.getD i []) *
+            ∑ k ∈ range S, ι N (limbOr0 N (F (as.getD i [])) k) * β ^ (S - 1 - k) := by
+    simp only [hphase, add_mul, Finset.sum_add_distrib, Finset.sum_mul, Finset.mul_sum]
+    congr 1
+    rw [Finset.sum_comm]
+    apply Finset.sum_congr rfl
+    intro i _
+    apply Finset.sum_congr rfl
+    intro k _
+    ring
+  have hs' : ∀ i ∈ range (min sk.length as.length),
+      ι N (sk.getD i []) * (∑ k ∈ range S, ι N (limbOr0 N (F (as.getD i [])) k) * β ^ (S - 1 - k))
+        + β ^ S * (ι N (sk.getD i []) * top (as.getD i []))
+      = β * (ι N (sk.getD i []) * cv (as.getD i [])) * v := by
+    intro i hi'
+    have hil : i < as.length := by have := mem_range.mp hi'; omega
+    have hmem : as.getD i [] ∈ as := by
+      rw [List.getD_eq_getElem?_getD, List.getElem?_eq_getElem hil]; exact List.getElem_mem _
+    have hc := hcol _ (Or.inr hmem)
+    linear_combination (ι N (sk.getD i [])) * hc
+  have h0' := hcol a0 (Or.inl rfl)
+  rw [e1, mul_add, Finset.mul_sum, mul_add, add_mul, Finset.mul_sum, Finset.sum_mul]
+  have hsum := Finset.sum_congr rfl hs'
+  rw [Finset.sum_add_distrib] at hsum
+  linear_combination h0' + hsum
+
 /-- **phase value of the accumulators of `glwe_mul_const`**: with `a = a₀ :: as` (body and masks, all of `sa` limbs) and the constant `b`,
 the phase of the `sa + sb − hi` limbs of the accumulators, plus `β^{sa+sb−hi}` times the skipped top limbs, is
 `β · (val a₀ + Σ_i s_i·val as_i) · val b` = `β · val(phase a) · val(b)`. -/
@@ -175,63 +302,65 @@ theorem mulConst_phase_value (N : Nat) (hN : 0 < N) (sk : List Poly) (a0 : Col) 
       + β ^ (sa + b.length - hi) * (constTop N β a0 b hi
           + ∑ i ∈ range (min sk.length as.length), ι N (sk.getD i []) * constTop N β (as.getD i []) b hi)
       = β * (colVal N β a0 + ∑ i ∈ range (min sk.length as.length), ι N (sk.getD i []) * colVal N β (as.getD i [])) * constVal N β b := by
-  have hcol : ∀ x : Col, x.length = sa → (∀ l ∈ x, l.length = N) →
-      ∑ k ∈ range (sa + b.length - hi), ι N (limbOr0 N (cnvByConstCol N (sa + b.length - hi) hi x b) k) * β ^ (sa + b.length - hi - 1 - k)
-        + β ^ (sa + b.length - hi) * constTop N β x b hi = β * colVal N β x * constVal N β b := by
-    intro x hxl hxn
+  apply phase_value_of_columns N hN sk a0 as (sa + b.length - hi) β (fun x => cnvByConstCol N (sa + b.length - hi) hi x b)
+    (fun x => constTop N β x b hi) (colVal N β) (constVal N β b)
+  · intro x k hx
+    rcases hx with rfl | hx
+    · exact cnvByConstCol_limb_length N _ hi _ b k hx0
+    · exact cnvByConstCol_limb_length N _ hi x b k (hxs x hx)
+  · intro x hx
+    have hxl : x.length = sa := by rcases hx with rfl | hx; exact h0; exact hall x hx
+    have hxn : ∀ l ∈ x, l.length = N := by rcases hx with rfl | hx; exact hx0; exact hxs x hx
     have := mulConst_column_value N x b hi β hxn (by omega) hsb (by omega)
     rw [hxl] at this
     unfold constTop colVal constVal
     rw [hxl]
     exact this
-  have hphase : ∀ k, ι N (phaseRow sk (((a0 :: as).map (fun x => cnvByConstCol N (sa + b.length - hi) hi x b)).map (fun col => limbOr0 N col k)))
-      = ι N (limbOr0 N (cnvByConstCol N (sa + b.length - hi) hi a0 b) k)
-        + ∑ i ∈ range (min sk.length as.length),
-            ι N (sk.getD i []) * ι N (limbOr0 N (cnvByConstCol N (sa + b.length - hi) hi (as.getD i []) b) k) := by
-    intro k
-    simp only [List.map_cons]
-    rw [ι_phaseRow N hN sk _ _ (cnvByConstCol_limb_length N _ hi a0 b k hx0) (by
-      intro m hm
-      simp only [List.mem_map] at hm
-      obtain ⟨c, ⟨x, hxm, rfl⟩, rfl⟩ := hm
-      exact cnvByConstCol_limb_length N _ hi x b k (hxs x hxm))]
-    congr 1
-    simp only [List.length_map]
-    apply Finset.sum_congr rfl
-    intro i hi'
-    have hil : i < as.length := by have := mem_range.mp hi'; omega
-    congr 2
-    simp [List.getD_eq_getElem?_getD, hil]
-  have e1 : ∑ k ∈ range (sa + b.length - hi),
-        ι N (phaseRow sk (((a0 :: as).map (fun x => cnvByConstCol N (sa + b.length - hi) hi x b)).map (fun col => limbOr0 N col k)))
-          * β ^ (sa + b.length - hi - 1 - k)
-      = ∑ k ∈ range (sa + b.length - hi), ι N (limbOr0 N (cnvByConstCol N (sa + b.length - hi) hi a0 b) k) * β ^ (sa + b.length - hi - 1 - k)
-        + ∑ i ∈ range (min sk.length as.length), ι N (sk.getD i []) *
-            ∑ k ∈ range (sa + b.length - hi),
-              ι N (limbOr0 N (cnvByConstCol N (sa + b.length - hi) hi (as.getD i []) b) k) * β ^ (sa + b.length - hi - 1 - k) := by
-    simp only [hphase, add_mul, Finset.sum_add_distrib, Finset.sum_mul, Finset.mul_sum]
-    congr 1
-    rw [Finset.sum_comm]
-    apply Finset.sum_congr rfl
-    intro i _
-    apply Finset.sum_congr rfl
-    intro k _
-    ring
-  have hs' : ∀ i ∈ range (min sk.length as.length),
-      ι N (sk.getD i []) * (∑ k ∈ range (sa + b.length - hi),
-          ι N (limbOr0 N (cnvByConstCol N (sa + b.length - hi) hi (as.getD i []) b) k) * β ^ (sa + b.length - hi - 1 - k))
-        + β ^ (sa + b.length - hi) * (ι N (sk.getD i []) * constTop N β (as.getD i []) b hi)
-      = β * (ι N (sk.getD i []) * colVal N β (as.getD i [])) * constVal N β b := by
-    intro i hi'
-    have hil : i < as.length := by have := mem_range.mp hi'; omega
-    have hmem : as.getD i [] ∈ as := by
-      rw [List.getD_eq_getElem?_getD, List.getElem?_eq_getElem hil]; exact List.getElem_mem _
-    have hc := hcol _ (hall _ hmem) (hxs _ hmem)
-    linear_combination (ι N (sk.getD i [])) * hc
-  have h0' := hcol a0 h0 hx0
-  rw [e1, mul_add, Finset.mul_sum, mul_add, add_mul, Finset.mul_sum, Finset.sum_mul]
-  have hsum := Finset.sum_congr rfl hs'
-  rw [Finset.sum_add_distrib] at hsum
-  linear_combination h0' + hsum
+
+/-- the skipped top limbs of the polynomial convolution, as a value -/
+noncomputable def plainTop (N : Nat) (β : R N) (x y : Col) (hi : Nat) : R N :=
+  CnvValue.val β hi (CnvValue.conv (fun m => ι N (limbOr0 N x m)) (fun j => ι N (limbOr0 N y j)) x.length y.length)
+
+theorem cnvApplyCol_limb_length (N S hi : Nat) (x y : Col) (k : Nat) (hy : ∀ l ∈ y, l.length = N) :
+    (limbOr0 N (Hal.cnvApplyCol N S hi x y) k).length = N := by
+  unfold limbOr0 Hal.cnvApplyCol
+  by_cases hk : k < S
+  · rw [mapRange_getD _ _ _ _ hk]
+    split
+    · unfold Hal.cnvCoeff
+      split
+      · simp [zeroP]
+      · apply sumPolys_length
+        intro p hp
+        simp only [List.mem_map, List.mem_range] at hp
+        obtain ⟨t, _, rfl⟩ := hp
+        rw [Hal.negMul_length]
+        exact limbOr0_length N y _ hy
+    · simp [zeroP]
+  · rw [mapRange_getD_ge _ _ _ _ (by omega)]
+    simp [zeroP]
+
+/-- **phase value of the accumulators of `glwe_mul_plain`** (`a'`, `pt'` the masked operands): `β · val(phase a') · val(pt')` up to the skipped top limbs -/
+theorem mulPlain_phase_value (N : Nat) (hN : 0 < N) (sk : List Poly) (a0 : Col) (as : List Col) (pt : Col) (hi sa : Nat) (β : R N)
+    (h0 : a0.length = sa) (hall : ∀ x ∈ as, x.length = sa) (hx0 : ∀ l ∈ a0, l.length = N) (hxs : ∀ x ∈ as, ∀ l ∈ x, l.length = N)
+    (hpt : ∀ l ∈ pt, l.length = N) (hsa : 1 ≤ sa) (hsb : 1 ≤ pt.length) (hhi : hi ≤ sa + pt.length - 1) :
+    ∑ k ∈ range (sa + pt.length - hi),
+        ι N (phaseRow sk (((a0 :: as).map (fun x => Hal.cnvApplyCol N (sa + pt.length - hi) hi x pt)).map (fun col => limbOr0 N col k)))
+          * β ^ (sa + pt.length - hi - 1 - k)
+      + β ^ (sa + pt.length - hi) * (plainTop N β a0 pt hi
+          + ∑ i ∈ range (min sk.length as.length), ι N (sk.getD i []) * plainTop N β (as.getD i []) pt hi)
+      = β * (colVal N β a0 + ∑ i ∈ range (min sk.length as.length), ι N (sk.getD i []) * colVal N β (as.getD i [])) * colVal N β pt := by
+  apply phase_value_of_columns N hN sk a0 as (sa + pt.length - hi) β (fun x => Hal.cnvApplyCol N (sa + pt.length - hi) hi x pt)
+    (fun x => plainTop N β x pt hi) (colVal N β) (colVal N β pt)
+  · intro x k _
+    exact cnvApplyCol_limb_length N _ hi x pt k hpt
+  · intro x hx
+    have hxl : x.length = sa := by rcases hx with rfl | hx; exact h0; exact hall x hx
+    have hxn : ∀ l ∈ x, l.length = N := by rcases hx with rfl | hx; exact hx0; exact hxs x hx
+    have := cnvApply_column_value N hN x pt hi β hxn hpt (by omega) hsb (by omega)
+    rw [hxl] at this
+    unfold plainTop colVal
+    rw [hxl]
+    exact this
 
 end Core
